@@ -18,6 +18,7 @@ compared to 1e-12 relative (the routing itself is one `+`; reductions may associ
 """
 from __future__ import annotations
 
+import math
 import struct
 from itertools import repeat
 
@@ -29,7 +30,7 @@ import inferno.learn as L
 from inferno.extra import ExactNeuron
 import inferno.functional as F
 from inferno.functional import exp_stdp_post_kernel, exp_stdp_pre_kernel
-from inferno.neural import DeltaCurrent, LinearDense, LinearDirect, Serial
+from inferno.neural import Conv2D, DeltaCurrent, LinearDense, LinearDirect, Serial
 
 from runner import Exploration, Finding
 
@@ -121,21 +122,82 @@ def view_close(a: str, b: str) -> bool:
 # ---------------------------------------------------------------------------------------------
 # real side
 
-def make_layer(kind, B, biased=True, delay=3.0):
+def geom(cfg):
+    """(input shape, output shape, shape of weight / delay) of the layer of a configuration, batch axis excluded; written
+    from the documented geometry of the connections, not read off the constructed object"""
+    kind = cfg["layer"]
     if kind == "dense":
-        n = ExactNeuron((2,), 1.0, rest_v=-60.0, thresh_v=-45.0, batch_size=B)
-        c = LinearDense((3,), (2,), 1.0, synapse=DeltaCurrent.partialconstructor(1.0), delay=delay,
-                        bias=biased, batch_size=B)
+        return (3,), (2,), (2, 3)
+    if kind == "direct":
+        return (3,), (3,), (3,)
+    g = cfg["conv"]
+    oh = (g["h"] + 2 * g["ph"] - g["kh"]) // g["sh"] + 1
+    ow = (g["w"] + 2 * g["pw"] - g["kw"]) // g["sw"] + 1
+    return (g["ch"], g["h"], g["w"]), (g["f"], oh, ow), (g["f"], g["ch"], g["kh"], g["kw"])
+
+
+def prod(shape):
+    n = 1
+    for d in shape:
+        n *= d
+    return n
+
+
+def nin(cfg):
+    return prod(geom(cfg)[0])
+
+
+def nout(cfg):
+    return prod(geom(cfg)[1])
+
+
+def nweights(cfg):
+    return prod(geom(cfg)[2])
+
+
+def synaptic_pairs(cfg):
+    """every synaptic pair of the layer as (flat index of the weight / delay it belongs to, flat index of the presynaptic
+    input element, flat index of the postsynaptic output element).  LinearDense: one pair per weight; LinearDirect: one pair
+    per weight; Conv2D: kernel weight (f, c, u, v) is SHARED by one pair per output position (oy, ox): input element
+    (c, oy * sh + u - ph, ox * sw + v - pw) (positions in the zero padding carry no input, hence no pair) and output element
+    (f, oy, ox)"""
+    kind = cfg["layer"]
+    if kind == "dense":
+        return [(o * 3 + i, i, o) for o in range(2) for i in range(3)]
+    if kind == "direct":
+        return [(i, i, i) for i in range(3)]
+    g = cfg["conv"]
+    (_, H, W), (_, oh, ow), (_, C, kh, kw) = geom(cfg)
+    out = []
+    for f in range(g["f"]):
+        for c in range(C):
+            for u in range(kh):
+                for v in range(kw):
+                    e = ((f * C + c) * kh + u) * kw + v
+                    for oy in range(oh):
+                        for ox in range(ow):
+                            y, x = oy * g["sh"] + u - g["ph"], ox * g["sw"] + v - g["pw"]
+                            if 0 <= y < H and 0 <= x < W:
+                                out.append((e, (c * H + y) * W + x, (f * oh + oy) * ow + ox))
+    return out
+
+
+def make_layer(cfg, B, biased=True, delay=3.0):
+    kind = cfg["layer"]
+    syn = DeltaCurrent.partialconstructor(1.0)
+    if kind == "dense":
+        c = LinearDense((3,), (2,), 1.0, synapse=syn, delay=delay, bias=biased, batch_size=B)
+    elif kind == "direct":
+        c = LinearDirect((3,), 1.0, synapse=syn, delay=delay, bias=biased, batch_size=B)
     else:
-        n = ExactNeuron((3,), 1.0, rest_v=-60.0, thresh_v=-45.0, batch_size=B)
-        c = LinearDirect((3,), 1.0, synapse=DeltaCurrent.partialconstructor(1.0), delay=delay,
-                         bias=biased, batch_size=B)
+        g = cfg["conv"]
+        c = Conv2D(g["h"], g["w"], g["ch"], g["f"], 1.0, (g["kh"], g["kw"]), stride=(g["sh"], g["sw"]),
+                   padding=(g["ph"], g["pw"]), synapse=syn, delay=delay, bias=biased, batch_size=B)
+    if tuple(c.inshape) != geom(cfg)[0] or tuple(c.outshape) != geom(cfg)[1] or tuple(c.weight.shape) != geom(cfg)[2]:
+        raise RuntimeError(f"layer geometry of {kind} is not the documented one: {c.inshape} {c.outshape} {tuple(c.weight.shape)}")
+    n = ExactNeuron(tuple(c.outshape), 1.0, rest_v=-60.0, thresh_v=-45.0, batch_size=B)
     c.updater = c.defaultupdater()
     return Serial(c, n)
-
-
-def nout(kind):
-    return 2 if kind == "dense" else 3
 
 
 def b(x):
@@ -394,6 +456,71 @@ def bounded_change(bd, w, pos, neg):
     return up - lo
 
 
+PAIR_TOL = 1e-9
+
+
+def pair_oracle_applies(cfg):
+    """the pair-by-pair closed form is written for the kernel trainers with the exponential kernels, additive batch
+    reductions, and presynaptic times taken at the synapse input (KernelSTDP with `delayed` views is left to the tie)"""
+    return (cfg["family"] in KERNEL and cfg["red"] in ("sum", "mean") and not cfg.get("delayed")
+            and not (cfg["family"] == "KernelSTDP" and cfg.get("delays")))
+
+
+def pair_parts(ccfg, last_pre, last_post):
+    """the documented rule of the kernel trainers evaluated pair by pair from the SPIKE HISTORY (independent of the trainer's
+    monitors and of the connection's receptive reshaping): every synaptic pair whose two neurons have fired contributes the
+    signed value  K_post(t) [t >= 0] + K_pre(t) [t < 0],  t = t_post - t_pre - d  (d = the learned delay of the pair's
+    synapse for the delay-adjusted trainers, 0 for KernelSTDP, whose delays are all zero here), with
+    K_post(t) = lr_post exp(-|t| / tc_post), K_pre(t) = lr_pre exp(-|t| / tc_pre).  The potentiating part of a parameter is
+    the sum of its POSITIVE pair contributions, the depressing part the sum of the magnitudes of its NEGATIVE ones (per
+    sample, then reduced over the batch by sum / mean).  -> (pos, neg) flat tensors, one entry per weight / delay"""
+    B, ne = ccfg["B"], nweights(ccfg)
+    a, c, tca, tcb = ccfg["lr_a"], ccfg["lr_b"], ccfg["tc_a"], ccfg["tc_b"]
+    adjusted = ccfg["family"] != "KernelSTDP"
+    delays = ccfg.get("delays") if adjusted else None
+    pos = [[0.0] * ne for _ in range(B)]
+    neg = [[0.0] * ne for _ in range(B)]
+    for smp in range(B):
+        for (e, i, j) in synaptic_pairs(ccfg):
+            tpre, tpost = last_pre[smp][i], last_post[smp][j]
+            if tpre is None or tpost is None:
+                continue
+            t = float(tpost - tpre) - (delays[e] if delays else 0.0)
+            val = a * math.exp(-abs(t) / tca) if t >= 0 else c * math.exp(-abs(t) / tcb)
+            if val >= 0:
+                pos[smp][e] += val
+            else:
+                neg[smp][e] -= val
+    red = torch.sum if ccfg["red"] == "sum" else torch.mean
+    return red(torch.tensor(pos, dtype=torch.float64), 0), red(torch.tensor(neg, dtype=torch.float64), 0)
+
+
+def pair_mismatch(cfg, rec):
+    """None, or the finding triple when the parts handed to the updater are not the pair-by-pair sums of `pair_parts`"""
+    if rec.get("pairs") is None:
+        return None
+    want_p, want_n = rec["pairs"]
+    got_p, got_n = rec["parts"]
+
+    def close(x, y):
+        return x.shape == y.shape and bool(((x - y).abs() <= PAIR_TOL * torch.maximum(torch.ones_like(x), torch.maximum(x.abs(), y.abs()))).all())
+
+    if close(got_p, want_p) and close(got_n, want_n):
+        return None
+    return ("spec", f"C09:pairs:{fam_key(cfg)}",
+            f"{cfg['family']} on {layer_s(cfg)} step {rec['step']} (cell {rec['cell']}): handed potentiating part {got_p.tolist()} and depressing part "
+            f"{got_n.tolist()}; summed pair by pair over the spike history, the positively signed contributions are {want_p.tolist()} and the "
+            f"negatively signed ones {want_n.tolist()} (batch reduction {cfg['red']})")
+
+
+def layer_s(cfg):
+    if cfg["layer"] != "conv":
+        return {"dense": "LinearDense(3->2)", "direct": "LinearDirect(3)"}[cfg["layer"]]
+    g = cfg["conv"]
+    return (f"Conv2D({g['ch']}x{g['h']}x{g['w']}, {g['f']} filters, kernel {g['kh']}x{g['kw']}, stride {g['sh']}x{g['sw']}, "
+            f"padding {g['ph']}x{g['pw']}; {prod(geom(cfg)[1][1:])} output positions share each kernel weight)")
+
+
 def run_case(cfg):
     """-> list of records {line, m, s, net, step, cell[, delta]}: one per trainer call and cell"""
     B, kind = cfg["B"], cfg["layer"]
@@ -401,7 +528,7 @@ def run_case(cfg):
     pname = target_param(cfg)
     cells = []
     for ccfg in cell_cfgs(cfg):
-        layer = make_layer(kind, B)
+        layer = make_layer(cfg, B)
         if cfg.get("delays"):
             layer.connection.delay = torch.tensor(cfg["delays"], dtype=torch.float64).reshape(layer.connection.delay.shape)
         kw = override_kwargs(ccfg) if ccfg["cell"] != "default" else {}
@@ -417,9 +544,18 @@ def run_case(cfg):
             raise TrainerRaised(f"register_cell({', '.join(f'{k}={v}' for k, v in kw.items())}) raised {type(e).__name__}: {e}") from e
         cells.append((ccfg, layer, unit))
     recs = []
+    last_pre = [[None] * nin(cfg) for _ in range(B)]
+    last_post = [[None] * nout(cfg) for _ in range(B)]
     for step, (pre, post) in enumerate(cfg["history"]):
-        pre_t = torch.tensor(pre, dtype=torch.bool).reshape(B, 3)
-        post_t = torch.tensor(post, dtype=torch.bool).reshape(B, nout(kind))
+        for smp in range(B):
+            for i, v in enumerate(pre[smp]):
+                if v:
+                    last_pre[smp][i] = step
+            for j, v in enumerate(post[smp]):
+                if v:
+                    last_post[smp][j] = step
+        pre_t = torch.tensor(pre, dtype=torch.bool).reshape(B, *geom(cfg)[0])
+        post_t = torch.tensor(post, dtype=torch.bool).reshape(B, *geom(cfg)[1])
         for _, layer, _u in cells:
             _ = layer(pre_t, neuron_kwargs={"override": post_t})
             if not cfg.get("apply"):
@@ -440,6 +576,11 @@ def run_case(cfg):
             if line.startswith("homeo"):
                 s = m
             rec = {"line": line, "m": m, "s": s, "net": net, "step": step, "cell": ccfg["cell"]}
+            if pair_oracle_applies(ccfg):
+                like = getattr(layer.connection, pname)
+                rec["pairs"] = pair_parts(ccfg, last_pre, last_post)
+                rec["parts"] = tuple((torch.zeros_like(like) if t is None else t.detach().expand(like.shape)).reshape(-1).to(torch.float64)
+                                     for t in (acc.pos, acc.neg))
             acc_shape = next((t.shape for t in (acc.pos, acc.neg) if t is not None), None)
             if cfg.get("apply"):
                 # no bounding configured: `update()` must change the parameter by exactly pos - neg
@@ -465,25 +606,40 @@ FAMILIES = ["STDP", "TripletSTDP", "MSTDP", "MSTDPET", "KernelSTDP", "DelayAdjus
 SIGNS = [(1, 1), (1, -1), (-1, 1), (-1, -1)]
 
 
-def rand_history(rng, B, kind, T, p=0.35):
-    return [([[int(rng.random() < p) for _ in range(3)] for _ in range(B)],
-             [[int(rng.random() < p) for _ in range(nout(kind))] for _ in range(B)]) for _ in range(T)]
+def rand_history(rng, cfg, T, p=0.35):
+    B, ni, no = cfg["B"], nin(cfg), nout(cfg)
+    return [([[int(rng.random() < p) for _ in range(ni)] for _ in range(B)],
+             [[int(rng.random() < p) for _ in range(no)] for _ in range(B)]) for _ in range(T)]
 
 
-def directed_history(B, kind, causal):
+def directed_history(cfg, causal):
     """all presynaptic neurons fire at step 1 and all postsynaptic ones at step 3 (causal) or the
     other way round (anti-causal); nothing else"""
-    T, no = 6, nout(kind)
+    T, B, ni, no = 6, cfg["B"], nin(cfg), nout(cfg)
     h = []
     for t in range(T):
         pre_on = (t == 1) if causal else (t == 3)
         post_on = (t == 3) if causal else (t == 1)
-        h.append(([[int(pre_on)] * 3 for _ in range(B)], [[int(post_on)] * no for _ in range(B)]))
+        h.append(([[int(pre_on)] * ni for _ in range(B)], [[int(post_on)] * no for _ in range(B)]))
     return h
 
 
-def base_cfg(rng, family, sa, sb):
-    kind = rng.choice(["dense", "direct"])
+def rand_conv(rng):
+    """a small Conv2D geometry in which every kernel weight is shared by at least two output positions (receptive axis
+    of length 2..10), at most 8 weights; strides and zero padding included"""
+    while True:
+        g = {"h": rng.choice([1, 2, 3]), "w": rng.choice([3, 4]), "ch": rng.choice([1, 1, 2]), "f": rng.choice([1, 2]),
+             "kh": rng.choice([1, 2]), "kw": rng.choice([1, 2, 2]), "sh": 1, "sw": rng.choice([1, 1, 2]),
+             "ph": 0, "pw": rng.choice([0, 0, 1])}
+        if g["kh"] > g["h"]:
+            continue
+        c = {"layer": "conv", "conv": g}
+        if nweights(c) <= 8 and 2 <= prod(geom(c)[1][1:]) <= 10 and nin(c) <= 16:
+            return g
+
+
+def base_cfg(rng, family, sa, sb, kind=None):
+    kind = kind or rng.choice(["dense", "direct", "conv"])
     B = rng.choice([1, 2, 3])
     cfg = {"family": family, "layer": kind, "B": B,
            "lr_a": sa * rng.choice([0.5, 0.25, 1.0, 0.125]), "lr_b": sb * rng.choice([0.5, 0.25, 0.75]),
@@ -492,10 +648,11 @@ def base_cfg(rng, family, sa, sb):
            "trace": rng.choice(["cumulative", "nearest"]), "red": rng.choice(["sum", "mean", "amax"]),
            "delayed": rng.random() < 0.3 and family in ("STDP", "TripletSTDP", "MSTDP", "KernelSTDP"),
            "scale": rng.choice([1.0, 0.5, 2.0, -1.0, -0.5, 0.0]) if family in THREE_FACTOR else 1.0}
+    if kind == "conv":
+        cfg["conv"] = rand_conv(rng)
     cfg["apply"] = (not family.endswith("STDPD")) and rng.random() < 0.5
     if family.startswith("DelayAdjusted") or cfg["delayed"]:
-        ne = (nout(kind) * 3) if kind == "dense" else 3
-        cfg["delays"] = [float(rng.choice([0, 1, 2])) for _ in range(ne)]
+        cfg["delays"] = [float(rng.choice([0, 1, 2])) for _ in range(nweights(cfg))]
     if family in THREE_FACTOR:
         cfg["red"] = rng.choice(["sum", "sum", "mean", "amax"])
     return cfg
@@ -513,7 +670,7 @@ def cases_for(rng, thorough):
                             cfg = base_cfg(rng, family, sa, 1)
                             cfg.update(param=param, lr_a=sa * rng.choice([0.125, 0.25]),
                                        target=(0.9 if above else 0.05), red=rng.choice(["mean", "sum", "amax"]))
-                            cfg["history"] = rand_history(rng, cfg["B"], cfg["layer"], 6, p=(0.15 if above else 0.7))
+                            cfg["history"] = rand_history(rng, cfg, 6, p=(0.15 if above else 0.7))
                             cfg["stream"] = "target-above" if above else "target-below"
                             cases.append(cfg)
             continue
@@ -526,7 +683,7 @@ def cases_for(rng, thorough):
                         cfg["signal_kind"] = sk
                         cfg["signal"] = ([ssign * rng.choice([1.0, 0.5, 2.0])] * 3 if sk == "scalar"
                                          else [rng.choice([1.0, -1.0, 0.5, -2.0, 0.0]) for _ in range(3)])
-                    cfg["history"] = rand_history(rng, cfg["B"], cfg["layer"], rng.randint(5, 8))
+                    cfg["history"] = rand_history(rng, cfg, rng.randint(5, 8))
                     cfg["stream"] = "random"
                     if rng.random() < 0.35:       # a second cell with per-cell rates of another sign mode
                         oa, ob = rng.choice([m for m in SIGNS if m != (sa, sb)])
@@ -553,7 +710,7 @@ def override_cases(rng):
             if family in THREE_FACTOR:
                 cfg.update(signal_kind=rng.choice(["scalar", "tensor"]),
                            signal=[rng.choice([1.0, -1.0, 0.5, -2.0]) for _ in range(3)])
-            cfg["history"] = rand_history(rng, cfg["B"], cfg["layer"], 6, p=0.45)
+            cfg["history"] = rand_history(rng, cfg, 6, p=0.45)
             out.append(cfg)
     return out
 
@@ -577,7 +734,7 @@ def triplet_rate_cases(rng):
         if i >= 6:      # the pair rates are overridden as well (another sign mode)
             oa, ob = rng.choice([m for m in SIGNS if m != (sa, sb)])
             cfg["override"].update(lr_a=oa * rng.choice([0.5, 0.25]), lr_b=ob * rng.choice([0.5, 0.125]))
-        cfg["history"] = rand_history(rng, cfg["B"], cfg["layer"], 8, p=0.5)
+        cfg["history"] = rand_history(rng, cfg, 8, p=0.5)
         out.append(cfg)
     return out
 
@@ -599,7 +756,7 @@ def bounded_cases(rng):
     def finish(cfg, i):
         bd = bound_of(i)
         cfg.update(apply=True, bound=bd, delayed=False,
-                   param_init=[bd["lb"] + (bd["ub"] - bd["lb"]) * rng.choice([1, 1, 2, 2, 3, 4, 8, 12, 15]) / 16 for _ in range(6)])
+                   param_init=[bd["lb"] + (bd["ub"] - bd["lb"]) * rng.choice([1, 1, 2, 2, 3, 4, 8, 12, 15]) / 16 for _ in range(8)])
         if not cfg["family"].startswith("DelayAdjusted"):
             cfg.pop("delays", None)
         out.append(cfg)
@@ -612,7 +769,7 @@ def bounded_cases(rng):
                     above = rng.random() < 0.5
                     cfg.update(param=param, lr_a=sa * rng.choice([0.125, 0.25]), target=(0.9 if above else 0.05),
                                red=rng.choice(["mean", "sum", "amax"]), stream="bounded")
-                    cfg["history"] = rand_history(rng, cfg["B"], cfg["layer"], 5, p=(0.15 if above else 0.7))
+                    cfg["history"] = rand_history(rng, cfg, 5, p=(0.15 if above else 0.7))
                     finish(cfg, fi + 2 * pi + si)
             continue
         for gi, (sa, sb) in enumerate(SIGNS):
@@ -626,9 +783,65 @@ def bounded_cases(rng):
                                                        for _ in range(3)])
                 if family in THREE_FACTOR:
                     cfg["scale"] = rng.choice([1.0, 0.5, 2.0, -1.0])
-                cfg["history"] = rand_history(rng, cfg["B"], cfg["layer"], 5, p=0.45)
+                cfg["history"] = rand_history(rng, cfg, 5, p=0.45)
                 cfg["stream"] = "bounded"
                 finish(cfg, fi + gi + vi)
+    return out
+
+
+def shared_parameter_cases(rng):
+    """connections whose parameters are SHARED by several synaptic pairs (Conv2D: every kernel weight belongs to one pair per
+    output position; strides, zero padding, several channels / filters), batch 1..3, spike histories dense enough that pairs
+    of the same weight and the same sample are causal and anti-causal at once: the kernel trainers (weight and delay variants)
+    in all four sign modes, once with the parts only and once with bounding configured and update() applied after every step
+    (the delay variant: parts only); every other rule once with bounding.  The kernel trainers' parts are compared with the
+    pair-by-pair sums over the spike history (`pair_parts`), the applied change with upper(potentiation) - lower(depression)"""
+    out = []
+    off = rng.randrange(4)
+
+    def bound(cfg, i):
+        ub, lb = rng.choice([(1.0, 0.0), (2.0, -1.0), (0.5, -0.5)])
+        bd = {"mode": BOUND_MODES[(i + off) % 4], "fn": rng.choice(["mult", "mult", "pow2"]), "ub": ub, "lb": lb}
+        cfg.update(apply=True, bound=bd,
+                   param_init=[lb + (ub - lb) * rng.choice([1, 2, 3, 4, 8, 12, 15]) / 16 for _ in range(8)])
+
+    i = 0
+    for family in KERNEL:
+        for (sa, sb) in SIGNS:
+            for bounded in (False, True):
+                cfg = base_cfg(rng, family, sa, sb, kind="conv")
+                cfg.update(delayed=False, red=rng.choice(["sum", "sum", "mean", "amax"]), apply=False, stream="shared-parameter")
+                if family == "KernelSTDP":
+                    cfg.pop("delays", None)
+                if bounded and not family.endswith("STDPD"):
+                    bound(cfg, i)
+                elif bounded and rng.random() < 0.5:     # a second cell with per-cell rates of another sign mode instead
+                    oa, ob = rng.choice([m for m in SIGNS if m != (sa, sb)])
+                    cfg["override"] = {"lr_a": oa * rng.choice([0.5, 0.25]), "lr_b": ob * rng.choice([0.5, 0.125])}
+                i += 1
+                cfg["history"] = rand_history(rng, cfg, rng.randint(5, 7), p=0.5)
+                out.append(cfg)
+    for family in FAMILIES:
+        if family in KERNEL or family.endswith("STDPD"):
+            continue
+        sa, sb = rng.choice(SIGNS)
+        cfg = base_cfg(rng, family, sa, sb, kind="conv")
+        cfg.update(delayed=False, stream="shared-parameter")
+        if not family.startswith("DelayAdjusted"):
+            cfg.pop("delays", None)
+        if family == "LinearHomeostasis":
+            above = rng.random() < 0.5
+            cfg.update(param=rng.choice(["weight", "bias"]), lr_a=sa * rng.choice([0.125, 0.25]), target=(0.9 if above else 0.05),
+                       red=rng.choice(["mean", "sum", "amax"]))
+        if family in THREE_FACTOR:
+            kind = rng.choice(["scalar", "tensor"])
+            cfg.update(signal_kind=kind, scale=rng.choice([1.0, 0.5, 2.0, -1.0]),
+                       signal=([rng.choice([1.0, -1.0, 0.5, -2.0])] * 3 if kind == "scalar"
+                               else [rng.choice([1.0, -1.0, 0.5, -2.0]) for _ in range(3)]))
+        bound(cfg, i)
+        i += 1
+        cfg["history"] = rand_history(rng, cfg, 5, p=0.5)
+        out.append(cfg)
     return out
 
 
@@ -649,9 +862,8 @@ def multistep_cases(rng):
                            apply=not family.endswith("STDPD"), stream="multi-step")
                 cfg.pop("delays", None)
                 if family.startswith("DelayAdjusted"):
-                    ne = (nout(cfg["layer"]) * 3) if cfg["layer"] == "dense" else 3
-                    cfg["delays"] = [float(rng.choice([0, 1])) for _ in range(ne)]
-                cfg["history"] = rand_history(rng, cfg["B"], cfg["layer"], len(seq), p=0.6)
+                    cfg["delays"] = [float(rng.choice([0, 1])) for _ in range(nweights(cfg))]
+                cfg["history"] = rand_history(rng, cfg, len(seq), p=0.6)
                 out.append(cfg)
     return out
 
@@ -668,12 +880,12 @@ def scale_twin_cases(rng):
             cfg.update(signal_kind=kind, apply=False, stream="scale-sign",
                        signal=([ssign * rng.choice([1.0, 0.5])] * 3 if kind == "scalar"
                                else [rng.choice([1.0, -1.0, 0.5, -2.0]) for _ in range(3)]))
-            cfg["history"] = rand_history(rng, cfg["B"], cfg["layer"], 5, p=0.5)
+            cfg["history"] = rand_history(rng, cfg, 5, p=0.5)
             out.append(dict(cfg, scale=g))
             out.append(dict(cfg, scale=-g, twin=True))       # compared with the case just before it
         z = base_cfg(rng, family, 1, -1)
         z.update(signal_kind="scalar", signal=[1.0] * 3, scale=0.0, apply=False, stream="scale-sign")
-        z["history"] = rand_history(rng, z["B"], z["layer"], 4, p=0.5)
+        z["history"] = rand_history(rng, z, 4, p=0.5)
         out.append(z)
     return out
 
@@ -689,7 +901,7 @@ def direction_cases(rng):
             cfg = base_cfg(rng, family, 1, -1)      # Hebbian: the t_delta >= 0 / post-triggered term potentiates
             cfg.update(red="sum", delayed=False, trace="cumulative", history=None, scale=1.0, apply=False)
             cfg.pop("delays", None)
-            cfg["history"] = directed_history(cfg["B"], cfg["layer"], causal)
+            cfg["history"] = directed_history(cfg, causal)
             cfg["stream"] = "causal" if causal else "anti-causal"
             if family in THREE_FACTOR:
                 for ssign in (1.0, -1.0):
@@ -772,7 +984,7 @@ def explore(ctx) -> Exploration:
     torch.set_default_dtype(torch.float64)
     try:
         cases = cases_for(rng, thorough) + direction_cases(rng) + override_cases(rng) + multistep_cases(rng) + scale_twin_cases(rng)
-        cases += triplet_rate_cases(rng) + bounded_cases(rng)
+        cases += triplet_rate_cases(rng) + bounded_cases(rng) + shared_parameter_cases(rng)
         runs = []
         for cfg in cases:
             try:
@@ -824,13 +1036,21 @@ def explore(ctx) -> Exploration:
                 else:
                     bad = ("spec", f"C09:spec:{fam_key(cfg)}:{cfg['stream'].split(':')[0]}",
                            f"{cfg['family']} step {rec['step']} (cell registered with {rec['cell']} rates): parts handed to the updater give `{rec['s']}`, the signed rule gives `{ds}`")
-            elif not view_close(rec["m"], dm):
+            if bad is None and rec.get("pairs") is not None:
+                # independent oracle: the parts against the pair-by-pair sums over the spike history
+                bad = pair_mismatch(cfg, rec)
+                ex.count("pair_oracle_checks", f"{cfg['family']}:{cfg['layer']}")
+                if cfg["layer"] == "conv" and bool((rec["pairs"][0] > 0).any()) and bool((rec["pairs"][1] > 0).any()):
+                    ex.count("pair_oracle_checks", "shared parameter with contributions of both signs")
+            if bad is None and not view_close(rec["m"], dm):
                 bad = ("model", f"C09:model:{fam_key(cfg)}",
                        f"{cfg['family']} step {rec['step']}: real parts `{rec['m']}`, Lean routing `{dm}`")
-            if bad is None and "delta" in rec:
+            if (bad is None or bad[0] == "model") and "delta" in rec:
+                # (a change applied by update() that is not the bound-scaled signed rule is a violation on this input
+                # whether or not the parts agree with the code-shaped model)
                 bd = cfg.get("bound")
                 rp, rn = routed_parts(dm, rec["delta"].dtype)
-                bad = applied_mismatch(cfg, rec, dm)
+                bad = applied_mismatch(cfg, rec, dm) or bad
                 if bd is not None:
                     ex.count("bounded_update_checks", f"{bd['mode']}:{bd['fn']}:" + ("pos+neg" if rp is not None and rn is not None else
                                                                                   "pos only" if rp is not None else
@@ -924,7 +1144,11 @@ def replay(ctx, data) -> int:
         dm, ds = split_resp(r)
         ok = view_close(rec["s"], ds) and view_close(rec["m"], dm)
         print(f"step {rec['step']} cell {rec['cell']}: {rec['line'][:160]}\n    real: M {rec['m']} || S {rec['s']}\n    lean: {r}\n    {'agrees' if ok else 'DISAGREEMENT'}")
-        if ok and "delta" in rec:
+        pm = pair_mismatch(cfg, rec)
+        if pm:
+            print("    PAIR-BY-PAIR ORACLE DISAGREES: " + pm[2])
+            ok = False
+        if "delta" in rec:
             am = applied_mismatch(cfg, rec, dm)
             if am:
                 print("    APPLIED CHANGE DISAGREES: " + am[2])
